@@ -1100,10 +1100,18 @@ class Authenticated(BaseClientHandler):
                 if attrs & SPECIAL_USE_ATTR_VALUES
             ]
 
-        # Build a set of all returned folder names so we can verify
+        # Build the set of all folder names we know so we can verify
         # \HasChildren / \HasNoChildren correctness.
         #
+        # NOTE: All of them, not just the ones this LIST returns: with the
+        #       pattern `%` a folder's children are not part of the results
+        #       but the folder has children all the same.
+        #
         all_names = {name for name, _, _ in results}
+        async for (name,) in self.server.db.query(
+            "SELECT name FROM mailboxes WHERE attributes NOT LIKE '%ignored%'"
+        ):
+            all_names.add("INBOX" if name.lower() == "inbox" else name)
         for mbox_name, attributes, child_info in results:
             has_children = any(n.startswith(mbox_name + "/") for n in all_names)
             if has_children:
